@@ -79,7 +79,8 @@ def main():
             for c in itertools.combinations_with_replacement(S, k):
                 cases.append((n, list(c)))
     cases += [(n, g) for _, n, g in G.collections(ck.rng, 300 if ck.quick else 3000, 2, 4)]
-    cases += [(n, g) for _, n, g in G.collections(ck.rng, 0 if ck.quick else 60, 5, 5)]
+    cases += [(n, g) for _, n, g in G.collections(ck.rng, 6 if ck.quick else 60, 5, 5)]
+    cases += [(n, g[:4]) for _, n, g in G.collections(ck.rng, 0 if ck.quick else 2, 6, 6)]
     # mixed lengths: the constructor pads
     for _ in range(40):
         n = ck.rng.randint(2, 4)
